@@ -7,7 +7,7 @@ from hypothesis import strategies as st
 import pytenet as ptn
 from core import Part, require, Violation
 from gen_graph import (chain_list, build_chains, chain_tuples, physical_charges, random_opmap, layered_graph, build_graph,
-                       graph_desc_poly, OID_ID, SYMBOLS)
+                       graph_desc_poly, OID_ID, SYMBOLS, with_identity_id, opmap_with_identity_id, swap_id)
 from oracle_sym import frac, chains_poly, graph_poly, graph_layers, poly_matrix, poly_close, poly_json, absconv
 from oracle_dense import mpo_to_mat, mpo_mask_violation
 
@@ -93,6 +93,11 @@ def check_chain_list(case, rec):
     L = case['L']
     exact = case['cstyle'] == 'dyadic'
     conv = frac if exact else float_conv
+    # the identity operator may carry any id (`oid_identity` argument): ids 0 and `ident` are swapped throughout
+    ident = case.get('identity_id', 0)
+    orig = case
+    case = with_identity_id(case, ident)
+    OID_ID = ident
     chains = build_chains(case)
     if all(c['coeff'] == 0 for c in case['chains']):
         rec.skip('all coefficients zero: outside the domain')
@@ -117,15 +122,15 @@ def check_chain_list(case, rec):
         rec.label('L=1')
     if any(OID_ID in c['oids'] for c in nz):
         rec.label('identity_inside_chain')
-    rec.label('coeff_' + case['cstyle'], 'charged' if case['charged'] else 'uncharged')
+    rec.label('coeff_' + case['cstyle'], 'charged' if case['charged'] else 'uncharged', 'identity_id=%d' % ident)
     rec.nontrivial = bool(len(want) >= 2 or (len(nz) == 1 and nz[0]['coeff'] != 1))
     # MPO conversion when the interleaved quantum numbers are the symbols' charges
     consistent = all(q2 - q1 == (SYMBOLS[o] if case['charged'] else 0)
-                     for c in case['chains'] for o, q1, q2 in zip(c['oids'], c['qnums'][:-1], c['qnums'][1:]))
+                     for c in orig['chains'] for o, q1, q2 in zip(c['oids'], c['qnums'][:-1], c['qnums'][1:]))
     if consistent and len(want) > 0:
         seed = case.get('opseed', 0)
         qd = physical_charges(case['charged'], seed, L)
-        opmap = random_opmap(qd, case['charged'], seed + 1)
+        opmap = opmap_with_identity_id(random_opmap(qd, case['charged'], seed + 1), ident)
         judge_from_opgraph(graph, L, qd, opmap, want, rec, magsum=magsum)
         rec.label('mpo_converted')
 
@@ -134,6 +139,7 @@ def check_chain_list(case, rec):
 def gen_chain_list(draw, tier):
     d = draw(chain_list(Lmax=8, nmax=12))
     d['opseed'] = draw(st.integers(0, 1000))
+    d['identity_id'] = draw(st.sampled_from([0, 0, 7, -3, 2]))
     return d
 
 
@@ -168,10 +174,11 @@ def check_exhaustive_chunk(case, rec):
     n = 0; nt = 0; labels = {'single_pair_last_site': 0, 'full_cancellation': 0}
     for j in seconds:
         lst = [first] if j is None else [first, allc[j]]
-        desc = {'L': L, 'chains': lst}
-        want = chains_poly(chain_tuples(desc), L, OID_ID, frac)
+        ident = 6 if L == 3 else 0        # the identity id is an argument: a non-zero one for the largest scope
+        desc = with_identity_id({'L': L, 'chains': lst}, ident)
+        want = chains_poly(chain_tuples(desc), L, ident, frac)
         try:
-            graph = ptn.OpGraph.from_opchains(build_chains(desc), L, OID_ID)
+            graph = ptn.OpGraph.from_opchains(build_chains(desc), L, ident)
             require(graph.is_consistent(), 'graph fails its own consistency check')
             require(graph.length == L, 'graph has the wrong length')
             compare_poly(graph_poly(graph, frac), want, True, 'from_opchains')
